@@ -103,6 +103,8 @@ structure Cfg where
   readBuf : Nat := Gen.C05.readBufsize
   /-- time units per second (the harness uses 1024 so that the code's float arithmetic is exact) -/
   ups : Nat := 1024
+  /-- the transport supports `pause_reading()` -/
+  canPause : Bool := true
 deriving Repr
 
 inductive Waiter | none | pending | resolved | cancelled
@@ -196,6 +198,8 @@ structure St where
   inFlight : Nat := 0
   invocations : Nat := 0
   errPopped : Bool := false
+  /-- an exception left the connection task `start()` -/
+  taskExc : Bool := false
   -- tasks
   spc : SPc := .init
   hpc : HPc := .idle
@@ -247,7 +251,8 @@ def payloadEvent (s : St) (i chunks : Nat) (eof exc : Bool) : St :=
 /-- `_pause_msg_queue_reading` -/
 def pauseMsgQ (s : St) : St :=
   let s := { s with msgQueuePaused := true }
-  if s.tPresent then { s with tPaused := true } else s
+  -- `transport.pause_reading()`; a transport without flow control raises NotImplementedError, which is ignored
+  if s.tPresent && s.cfg.canPause then { s with tPaused := true } else s
 
 /-- how many `_msg_in_flight` slots one parser call takes -/
 def POut.slots (o : POut) : Nat := if o.raised then o.lost else o.msgs.length
@@ -534,7 +539,9 @@ def startRun : Nat → St → SCont → St
       | [] => { s with spc := .done }     -- IndexError (unreachable: the waiter fires only after an append)
       | m :: rest =>
         let s := popPrep s m rest
-        if !m.err && m.info.badUrl then { s with spc := .done } else   -- the request factory raises: start() dies
+        -- `self._request_factory(...)` is outside every `try`: after `connection_lost` it is None (TypeError), and a lazily
+        -- validated URL makes `BaseRequest.__init__` raise ValueError: either way the exception leaves `start()`
+        if !s.managerPresent || (!m.err && m.info.badUrl) then { s with spc := .done, taskExc := true } else
         let s := handlerStart fuel s m
         match s.hpc with
         | .finished r => startRun fuel s (.afterHandler r)
@@ -611,7 +618,10 @@ def runCb (s : St) (c : Cb) : St :=
     match s.spc with
     | .waitMsg =>
       match s.waiter with
-      | .resolved => startRun (fuelOf s) { s with waiter := .none } .pop
+      | .resolved =>
+        -- (if the source re-checks `_force_close` after the wait — probed by the generator — the loop ends here)
+        if Gen.C05.recheckForceCloseAfterWait && s.forceClose then { s with waiter := .none, cur := none, spc := .done }
+        else startRun (fuelOf s) { s with waiter := .none } .pop
       | .cancelled => { s with waiter := .none, spc := .done }   -- CancelledError leaves start()
       | _ => s
     | .awaitHandler =>
@@ -733,6 +743,6 @@ def b01 (b : Bool) : String := if b then "1" else "0"
 def obs (s : St) : String :=
   let (codes, part) := render s.wire.reverse [] none
   let cs := if codes.isEmpty then "-" else ".".intercalate (codes.map toString)
-  s!"r={cs} part={part} cl={b01 (s.tClosing || s.tLost)} lost={b01 s.tLost} q={s.messages.length} pa={b01 s.tPaused} w={b01 (s.waiter == .pending)} c={s.calls} f={if s.parserPresent then toString s.inFlight else "-"} x=0{if s.desync then " DESYNC" else ""}{if s.capViolated then " CAPVIOLATED" else ""}"
+  s!"r={cs} part={part} cl={b01 (s.tClosing || s.tLost)} lost={b01 s.tLost} q={s.messages.length} pa={b01 s.tPaused} w={b01 (s.waiter == .pending)} c={s.calls} f={if s.parserPresent then toString s.inFlight else "-"} x={if s.taskExc then "1" else "0"}{if s.desync then " DESYNC" else ""}{if s.capViolated then " CAPVIOLATED" else ""}"
 
 end Aio.C05
